@@ -17,6 +17,10 @@ type Mutant struct {
 	Old    string `json:"old"`
 	New    string `json:"new"`
 	Expect string `json:"expect"` // substring of a failing obligation name
+	Edits  []struct {
+		Old string `json:"old"`
+		New string `json:"new"`
+	} `json:"edits"` // alternatively to old/new: several edits of the same file, each site unique
 	Patch  string `json:"patch"`  // alternatively: a unified diff under /verif/seeded (applied with `git apply` semantics is not available in overlay mode)
 }
 
@@ -88,10 +92,20 @@ func runMutant(repo string, pc *PropConfig, m Mutant) (bool, string) {
 		return false, err.Error()
 	}
 	src := string(b)
-	if strings.Count(src, m.Old) != 1 {
-		return false, fmt.Sprintf("edit site occurs %d times in %s", strings.Count(src, m.Old), m.File)
+	if len(m.Edits) > 0 {
+		for _, ed := range m.Edits {
+			if strings.Count(src, ed.Old) != 1 {
+				return false, fmt.Sprintf("edit site occurs %d times in %s", strings.Count(src, ed.Old), m.File)
+			}
+			src = strings.Replace(src, ed.Old, ed.New, 1)
+		}
+	} else {
+		if strings.Count(src, m.Old) != 1 {
+			return false, fmt.Sprintf("edit site occurs %d times in %s", strings.Count(src, m.Old), m.File)
+		}
+		src = strings.Replace(src, m.Old, m.New, 1)
 	}
-	overlay := map[string][]byte{path: []byte(strings.Replace(src, m.Old, m.New, 1))}
+	overlay := map[string][]byte{path: []byte(src)}
 	e, err := loadEngine(repo, pc.Packages, overlay, stdSpecFiles())
 	if err != nil {
 		return false, "mutant does not load: " + err.Error()
